@@ -77,6 +77,13 @@ def run(repo, rep):
     rep.rule('C19.U3', 'progress: at the k-th report completed = k and remaining = total - k (counter incremented before the '
              'fields are filled; starts at 0, step 1); the final response reports the same counters', 1)
     rep.rule('C19.U4', 'exactly one final (non-pending) C-MOVE response on every path, also when there is nothing to move', 1)
+    from ..api_pitfalls import flag_after_reset_problems as _farp
+    _p6, _n6 = _farp(repo)
+    rep.rule('C19.U6', 'a failure inside the sub-association block reaches the retrieve provider as the exception it is (its '
+             '``except EventHandlingError`` sends the one final failure report with the counters): request_association does not decide '
+             '"body failed" / "establishment failed" on a flag it has already cleared (same analysis as C14.J7)', 1)
+    rep.check(not _p6, 'C19.U6', 'package:association_established:read-after-clear', '',
+              '%d function(s) examined, no read of the flag after it was cleared' % _n6, '; '.join(_p6))
     rep.rule('C19.U5', 'each report keeps the counters it was sent with: a report constructed over another message\'s command set and then '
              'written to holds a deep copy of it (the same Dataset or a shallow copy shares the DataElement objects the counters are '
              'written into; same analysis as C17.P9)', 1)
